@@ -107,7 +107,9 @@ func (c *SimConn) Read(p []byte) (int, error) {
 		}
 		c.inRead = true
 		c.mu.Unlock()
+		c.e.ParkBegin(false)
 		<-c.rwait
+		c.e.ParkEnd(false)
 	}
 }
 
@@ -175,7 +177,9 @@ func (c *SimConn) Write(p []byte) (int, error) {
 			c.mu.Unlock()
 			c.e.Fault("write-stall")
 			c.e.Poke()
+			c.e.ParkBegin(true)
 			<-ch
+			c.e.ParkEnd(true)
 			c.mu.Lock()
 			c.stalled = false
 			if c.closed {
@@ -351,7 +355,9 @@ func (l *SimListener) Accept() (net.Conn, error) {
 		}
 		l.parked = true
 		l.mu.Unlock()
+		l.e.ParkBegin(false)
 		<-l.wait
+		l.e.ParkEnd(false)
 	}
 }
 
